@@ -169,6 +169,7 @@ func cmdCheck(args []string) int {
 	verbose := fs.Bool("v", false, "")
 	noEvidence := fs.Bool("no-evidence", false, "")
 	module := fs.String("module", "", "module path (default: martian)")
+	replaysFlag := fs.String("replays", "", "directory for replay files (default <verif>/replays)")
 	listAll := fs.Bool("list", false, "print every obligation with its status")
 	fs.Parse(args)
 	if *module != "" {
@@ -375,6 +376,9 @@ func cmdCheck(args []string) int {
 		fmt.Printf("KNOWN-FINDING: property=%s %s\n", *prop, strings.TrimSpace(strings.TrimPrefix(k, "known:")))
 	}
 	replayDir := filepath.Join(*verif, "replays", *prop)
+	if *replaysFlag != "" {
+		replayDir = filepath.Join(*replaysFlag, *prop)
+	}
 	for _, o := range violations {
 		os.MkdirAll(replayDir, 0o755)
 		rp := filepath.Join(replayDir, sanitize(stableName(o.Name))+".json")
